@@ -442,6 +442,10 @@ func (u *Unmarshaler) parseOptionsWithContext(field reflect.StructField, m Value
 	if err != nil {
 		return "", nil, err
 	} else if options == nil {
+		// a key without options is canonicalized as well, callers look values up with it
+		if u.opts.canonicalKey != nil {
+			key = u.opts.canonicalKey(key)
+		}
 		return key, nil, nil
 	}
 
